@@ -135,6 +135,46 @@ def digest(f):
     return out
 
 
+def d9(rep):
+    """The C file may be written under a temporary name (a stale object file in the way: `cr<pid in base 36>00.c`) and moved to
+    its requested name afterwards; what is written *into* it must not know that name.  emitTheC starts the file with
+    `#line 1 "<name>.as"`: the name is the source file's, which is the same in every run, not the output file's, which carries
+    the process id.  Every `#line` text printed by emit.c takes its file name from the source file name (emitSrcFile)."""
+    f = common.extract("emit.c", all_trees=True)
+    n = 0
+    for name, fn in sorted(f.funcs.items()):
+        if "body" not in fn or not fn.get("file", "").endswith("emit.c"):
+            continue
+        src_vars = set()
+        for x in walk(fn["body"]):
+            if x["k"] == "BinaryOperator" and x["op"] == "=" and (strip(x["c"][0]) or {}).get("k") == "DeclRefExpr":
+                if any(y["k"] == "CallExpr" and y.get("callee") == "emitSrcFile" for y in walk(x["c"][1])) or \
+                        any((y.get("mac") or "") == "emitSrcFile" for y in walk(x["c"][1])):
+                    src_vars.add(strip(x["c"][0])["n"])
+            elif x["k"] == "DeclStmt":
+                for d in x.get("decls", []):
+                    if d.get("init") is not None and any((y["k"] == "CallExpr" and y.get("callee") == "emitSrcFile") or
+                                                         (y.get("mac") or "") == "emitSrcFile" for y in walk(d["init"])):
+                        src_vars.add(d["n"])
+        for c in calls(fn["body"]):
+            fmts = [a for a in c["c"][1:] if (common.string_value(a) or "").find("#line") >= 0 and "%s" in (common.string_value(a) or "")]
+            if not fmts:
+                continue
+            n += 1
+            names = set(y["n"] for a in c["c"][1:] for y in walk(a) if y["k"] == "DeclRefExpr" and y.get("dk") in ("var", "parm"))
+            names -= set(["fout", "hout"])
+            key = "line-directive-names-the-source:%s" % name
+            if names and names <= src_vars:
+                rep.ok("D9", key, sample={"from": sorted(names)})
+            else:
+                rep.violation("D9", key, "emit.c:%d (%s)" % (c["l"], name),
+                              "the file name of the `#line` written at the head of the C file comes from `%s`, the name the C file "
+                              "is being written under: with a stale object file in the way that is a temporary name made from the "
+                              "process id (`cr07A700`), so the kept .c differs from run to run (and names a source file that does "
+                              "not exist)" % ", ".join(sorted(names - src_vars)))
+    rep.floor("#line directives written by emit.c", n, 1)
+
+
 def d5(rep):
     """The object-file header is built in memory by libNewHeader and written field by field by libPutHeader.  The store the Lib
     lives in is not cleared, so every field the writer emits, for every index it emits, must have been assigned by the
@@ -550,6 +590,7 @@ def run(tier, only=None):
                           "`aldor a.as b.as` and `aldor b.as` can write different files for b.as" % (v, ", ".join(f for _, f in sites[:3])))
     rep.floor("monotone never-reset integer counters examined", nc, 15)
     d5(rep)
+    d9(rep)
     d6(rep, dig)
     d7(rep)
     d8(rep)
